@@ -343,4 +343,27 @@ PROPS = {
                  "the input. The class histogram lists how many inputs ended in each error code."),
         "assumptions": [],
     },
+    "C17": {
+        "src": "c17", "engine": "rc", "level": "fault_enumeration",
+        "technique": "fault enumeration over generated inputs: every prefix and every single-field header/table rewrite of compiled images of rapidcheck-generated rule sets, loaded in forked children",
+        "level_text": ("For each generated rule set the compiled image is cut at EVERY byte position (images <= 64 KiB; above "
+                       "that all section and relocation-entry boundaries +-1/2 plus 2000 sampled points) and every single "
+                       "field of its header and buffer table is rewritten (each magic byte, all 255 other versions and "
+                       "buffer counts, sizes and offsets set to 0, 1, size+-1, size/2, size+8, 2^31, 2^32-1, 2^64-1); each "
+                       "damaged image is loaded through an in-memory stream or a chunked pipe in a forked child. Oracle: "
+                       "the load returns an error and leaves no rule set; a load that succeeds must give rules whose full "
+                       "scan traces equal the intact rules' (which is what makes a rewrite of the unused offset field "
+                       "acceptable); a crash / assertion / sanitizer report in the child is a violation; the enumeration "
+                       "resumes behind a crashing point."),
+        "level_note": ("Exhaustive per generated file for files <= 64 KiB; the set of files is what rapidcheck generates in "
+                       "the budget; damage inside the bodies or the relocation table other than truncation is outside the "
+                       "property."),
+        "quick": (40, 45), "thorough": (2500, 600),
+        "floor": 50,
+        "rule": ("case = one generated rule set (1-5 rules); its image yields ~5-15 thousand damage points, all evaluated. "
+                 "Non-trivial unit = a distinct (file, region class) pair, region classes being header, table entry i, body "
+                 "of buffer i, relocation j, magic, version, buffer count, size of entry i, offset of entry i; "
+                 "`evaluations` counts damage points."),
+        "assumptions": [],
+    },
 }
